@@ -8,11 +8,13 @@ import (
 	"os/exec"
 	"runtime"
 	"runtime/debug"
+	"sort"
 	"strings"
 	"syscall"
 	"time"
 
 	"github.com/d5/tengo/v2"
+	"github.com/d5/tengo/v2/stdlib"
 
 	"verif/fw"
 	"verif/gen"
@@ -55,10 +57,10 @@ var c05Builtins = []string{"len", "copy", "append", "delete", "splice", "string"
 // atom returns one hostile statement (possibly several joined by ';').
 func c05Atom(r *rand.Rand, idx int) string {
 	v := func() string { return pick(r, c05Vals) }
-	switch k := idx % 22; k {
+	switch k := idx % 24; k {
 	case 0, 1, 2:
 		// systematic operator x type x type sweep
-		n := idx / 22
+		n := idx / 24
 		a := c05Vals[n%len(c05Vals)]
 		b := c05Vals[(n/len(c05Vals))%len(c05Vals)]
 		op := c05BinOps[(n/(len(c05Vals)*len(c05Vals))+k)%len(c05BinOps)]
@@ -111,7 +113,7 @@ func c05Atom(r *rand.Rand, idx int) string {
 		})
 	case 13, 14, 15:
 		// every builtin with every argument type, arity 0..4
-		b := c05Builtins[(idx/22)%len(c05Builtins)]
+		b := c05Builtins[(idx/24)%len(c05Builtins)]
 		n := r.Intn(5)
 		var args []string
 		for i := 0; i < n; i++ {
@@ -147,9 +149,53 @@ func c05Atom(r *rand.Rand, idx int) string {
 			"s := \"\"; for i := 0; i < 3000; i++ { s += \"ab\" }; h := len(s); t := s[1:5000]; u := bytes(s)",
 			"a := range(0, 1000); b := a + a + a; splice(b, 10, 2000); h := len(b)",
 		})
+	case 21, 22:
+		// every function of the standard-library modules with hostile arguments (wrong types, wrong arity, arguments
+		// outside the domain of the wrapped Go function, which then panics — with a runtime.Error or with a plain string)
+		mod := c05StdMods[(idx/24)%len(c05StdMods)]
+		fns := c05ModuleFuncs(mod)
+		fn := fns[(idx/24/len(c05StdMods)+r.Intn(len(fns)))%len(fns)]
+		n := r.Intn(5)
+		var args []string
+		for i := 0; i < n; i++ {
+			if r.Intn(2) == 0 {
+				args = append(args, pick(r, []string{"-1", "0", "1", "2", "37", "64", "-9223372036854775808", "9223372036854775807", "4611686018427387904", "3000000000", "\"\"", "\"(\"", "\"%\"", "\"ab\"", "\"x\"", "'f'", "1.5e308", "-0.0"}))
+			} else {
+				args = append(args, v())
+			}
+		}
+		if mod == "rand" && (fn == "perm" || fn == "read") || mod == "times" && fn == "sleep" {
+			// a huge but legal permutation / a long sleep is unbounded allocation / a long native call, outside the claim
+			for i := range args {
+				args[i] = pick(r, []string{"-1", "0", "3", "\"x\"", "[]", "undefined"})
+			}
+		}
+		return fmt.Sprintf("md := import(%q); h := md.%s(%s)", mod, fn, strings.Join(args, ", "))
 	default:
 		return fmt.Sprintf("h := %s %s %s %s %s", v(), pick(r, c05BinOps), v(), pick(r, c05BinOps), v())
 	}
+}
+
+var c05StdMods = []string{"text", "math", "times", "rand", "fmt", "json", "base64", "hex", "text", "times"}
+
+var c05ModFuncsCache = map[string][]string{}
+
+// c05ModuleFuncs lists the callable attributes of a builtin module (fmt's printing functions left out: they write to
+// the worker's stdout).
+func c05ModuleFuncs(mod string) []string {
+	if f, ok := c05ModFuncsCache[mod]; ok {
+		return f
+	}
+	var out []string
+	for name, o := range stdlib.BuiltinModules[mod] {
+		if !o.CanCall() || (mod == "fmt" && name != "sprintf") {
+			continue
+		}
+		out = append(out, name)
+	}
+	sort.Strings(out)
+	c05ModFuncsCache[mod] = out
+	return out
 }
 
 func c05Wrap(r *rand.Rand, atom string) (main string, mod string) {
